@@ -1,7 +1,7 @@
 """C01 - reported reachability probabilities are the max-min game values (structural part)."""
 import ast
 
-from ..loader import AnalysisError, attr_path, src, walk_no_nested_defs, norm_stmt, call_name
+from ..loader import AnalysisError, attr_path, src, walk_no_nested_defs, walk_code, possible_strings, norm_stmt, call_name
 from ..symx import SymX, classify, show, C, TRUE, FALSE, simp, mk_mul, mk_add, negate, UNBOUND, is_const, mentions, strip_perm
 from ..nf import SELF_NEXT, SF
 from . import kernels as K
@@ -115,9 +115,11 @@ def _collect_calls(t, names, out=None):
 
 
 def field_writers(ctx, field, modules=("tad.py", "reverse_dfs.py")):
+    """(function, node) for every store to <x>.<field>, code in lambdas / nested functions included.  setattr() counts when
+    its name argument can be `field`; when the name is not determined the entry is (function, node, "dynamic")."""
     out = []
     for f in ctx.prog.all_funcs(modules):
-        for n in walk_no_nested_defs(f.node):
+        for n in walk_code(f.node):
             tgts = []
             if isinstance(n, ast.Assign):
                 tgts = n.targets
@@ -127,8 +129,12 @@ def field_writers(ctx, field, modules=("tad.py", "reverse_dfs.py")):
                 for x in ast.walk(t):
                     if isinstance(x, ast.Attribute) and x.attr == field and isinstance(x.ctx, ast.Store):
                         out.append((f, n))
-            if isinstance(n, ast.Call) and call_name(n) == "setattr":
-                out.append((f, n))
+            if isinstance(n, ast.Call) and call_name(n) == "setattr" and len(n.args) >= 2:
+                names = possible_strings(ctx.prog, f, n.args[1])
+                if names is None:
+                    out.append((f, n, "dynamic"))
+                elif field in names:
+                    out.append((f, n))
     return out
 
 
@@ -146,6 +152,9 @@ def r3_writers(ctx, chk, rule="C01.3"):
                 allowed.add(g.qual)
                 changed = True
     ws = field_writers(ctx, REACH)
+    for w in [w for w in ws if len(w) == 3]:
+        chk.undecided(rule, w[0].where(w[1]), "`%s`: attribute name not determined statically; it may write reach_probability" % norm_stmt(w[1]))
+    ws = [w for w in ws if len(w) == 2]
     for f, n in ws:
         if f.qual in allowed:
             chk.ok(rule, f.where(n), "writer of reach_probability: `%s`" % norm_stmt(n))
@@ -216,7 +225,7 @@ def _all_terms(sx):
 def sweep_nf(ctx, chk, rule, qual, fields, kernel_meth, domain_is_param):
     """Normal form of a `while diff > threshold` sweep. fields: [(field, slot or None)] written per element."""
     f = ctx.func(qual)
-    sx = SymX(ctx, f, "Solver", inline_depth=2).run()      # private helper methods of the sweep are judged by content
+    sx = SymX(ctx, f, "Solver", inline_depth=4).run()      # private helper methods of the sweep are judged by content
     whiles = [l for l in sx.loops.values() if l.kind == "while"]
     if len(whiles) != 1:
         chk.undecided(rule, f.where(), "%d while loops found; expected the single convergence loop" % len(whiles))
@@ -259,7 +268,12 @@ def sweep_nf(ctx, chk, rule, qual, fields, kernel_meth, domain_is_param):
     # change' = MAX over the sweep of per-state change, reset each sweep
     up = W.update[dvar]
     if up[0] != "res":
-        chk.undecided(rule, where, "change measure update `%s` is not the result of the sweep loop" % show(up))
+        inner = [x for x in _subterms(up) if x[0] == "res" and x[1] in sx.loops]
+        if up[0] in ("div", "mul", "add", "pow") and len(inner) == 1:
+            chk.violation(rule, where, "the change measure compared with the threshold is `%s`, a rescaled / shifted version of the sweep's maximum: the loop stops at a different accuracy than the solver's threshold" % show(up),
+                          expected="the largest per-state change of the sweep, unscaled", found=show(up), construct="%s change measure scaled" % f.short)
+        else:
+            chk.undecided(rule, where, "change measure update `%s` is not the result of the sweep loop" % show(up))
         return None
     F = sx.loops[up[1]]
     mv = up[2]
@@ -407,7 +421,7 @@ def run(ctx, chk):
     C02.solve_slot(ctx, chk, "C01.6", 3, REACH, "solve_reachability", "reachability probabilities")
     # prerequisites: the sweep domain is complete and final-free
     C07.r2_roots(ctx, chk, "C01.pre:C07.2")
-    C07.r4_result(ctx, chk, "C01.pre:C07.4")
+    C07.r4_result(ctx, chk, "C01.pre:C07.4", order_matters=False)
     C07.r35_worklist(ctx, chk, "C01.pre:C07.3", "C01.pre:C07.5")
     chk.require_instances("C01.1", 3)
     chk.require_instances("C01.3", 4)
